@@ -225,7 +225,7 @@ def lib_hook(node, ev):
     return NotImplemented
 
 
-def run_su_coef(ctx, fn, regime, m_none, rb_given=True, call=None):
+def run_su_coef(ctx, fn, regime, m_none, rb_given=True, call=None, cmp=None):
     """evaluate get_su_coef for the generic mode of `regime`; -> (coefficients, parameters, evaluator)"""
     par = regime_params(regime, m_none)
     isrb = regime in ("rb", "rbd")
@@ -234,7 +234,7 @@ def run_su_coef(ctx, fn, regime, m_none, rb_given=True, call=None):
 
     inl = {k: v for k, v in module_funcs(ctx, UTIL).items() if v is not fn}
     S = Sem01(ctx, fn, ev_cls=ModeEv, env=env, inline=inl, consts=_consts(ctx, UTIL), nonnull={"h", "m"},
-              cmp=regime_oracle(regime, par), abs_hook=abs_hook, call=call or lib_hook)
+              cmp=(cmp(regime, par) if cmp else regime_oracle(regime, par)), abs_hook=abs_hook, call=call or lib_hook)
     ev = S.ev
     if not ev.returns and ev.raised is not None:
         raise RegimeRaises(ev.raised, ev)
